@@ -235,10 +235,21 @@ def main(argv: list[str]) -> int:
             raise MachineryError("specification mutant %s not rejected: %s %s" % (cfg, rm.violated, rm.error))
         cov.setdefault("spec_mutants_rejected", {})[cfg] = rm.violated
     # ---- 2. watcher behaviours on the real FileSystemWatcher
-    g = tlc("MC_FsWatcher", "Gen_FsWatcher.cfg", workers=1, coverage=False, simulate="num=%d" % (1500 if tier == "quick" else 12000), depth=9, seed=seed + 1, timeout=900)
-    if not g.ok:
-        raise MachineryError("Gen FsWatcher: %s %s" % (g.violated, g.error))
-    wh = {json.dumps(x, sort_keys=True): x for x in g.json_lines("HIST")}
+    wh: dict[str, Any] = {}
+    # with an exact clock, and with a coarse one (several writes inside one tick: same whole-second mtime, the size / hash
+    # comparison is then all the watcher has; the real watcher must still do what the transcription does)
+    for gcfg in ("Gen_FsWatcher.cfg", "Gen_FsWatcher_Coarse.cfg"):
+        if gcfg.endswith("Coarse.cfg"):
+            # exhaustive (2 environment steps, 3 watcher operations): the patterns that matter are too rare for simulation
+            g = tlc("MC_FsWatcher", gcfg, workers=1, coverage=False, timeout=900)
+        else:
+            g = tlc("MC_FsWatcher", gcfg, workers=1, coverage=False, simulate="num=%d" % (1500 if tier == "quick" else 12000), depth=9, seed=seed + 1, timeout=900)
+        if not g.ok:
+            raise MachineryError("Gen FsWatcher: %s %s" % (g.violated, g.error))
+        hs_ = {json.dumps(x, sort_keys=True): x for x in g.json_lines("HIST")}
+        if gcfg.endswith("Coarse.cfg") and tier == "quick":
+            hs_ = {k: hs_[k] for k in sorted(hs_)[::2]}      # every second of the 64.8 k behaviours
+        wh.update(hs_)
     if len(wh) < 200:
         raise MachineryError("too few watcher behaviours emitted: %d" % len(wh))
     nwatch = 0
